@@ -27,6 +27,11 @@ Decided:
          the path conditions derive from the request, the cookie or the response.  The ``**mapping`` given to save_cookie
          may be kept on the middleware (built by the constructor, then followed there) as long as request() only reads
          or copies it.
+  R16.f  a key per middleware: the random key used when none is configured is drawn by a call evaluated each time the
+         constructor runs -- followed through methods, functions, lambdas, partials, parameters and their defaults, class
+         attributes and module-level names; a default-argument expression, a class attribute, a module-level value, a
+         module / class variable filled lazily or a memoised factory is evaluated once per process, so that every middleware
+         built without a key would sign with the same key (a cookie of one is "server-signed" for all others).
 Declined: cryptographic strength, JSON round-trip fidelity, clock behaviour around the expiry instant.
 
 Constructs are recognised by role, not by spelling: values are followed through single-assignment locals and
@@ -37,6 +42,7 @@ import ast
 import codecs
 
 from ..core import AnalysisError, norm, short
+from ..loader import ClassInfo
 from ..astutil import argn, assigned_value
 from ..layers import layers_of_var, layers_of_expr, layers_of_value
 from .common import (cfg_of, fkey, conds, has_cond, cond_texts, stmts_of, walk_body, call_tail, call_name,
@@ -75,7 +81,8 @@ class _Ctx(object):
 def run(rep):
     rep.decide('R16.a malformed cookies cannot raise out of the load; R16.b unquote total, quote total on what unquote returns, '
                'codec agreement; R16.c MAC dominates use; R16.d key plumbing, provide-under-name, save on every path; '
-               'R16.e nothing request() learns from one request is written into an object shared with the next')
+               'R16.e nothing request() learns from one request is written into an object shared with the next; '
+               'R16.f the random default key is drawn per constructed middleware')
     rep.decline('cryptographic strength; JSON round-trip fidelity; clock behaviour at the expiry instant')
     rep.assume('binascii.Error and UnicodeDecodeError are ValueError subclasses (CPython)')
     rep.assume('json.loads returns str values with unpaired surrogates for escapes such as "\\ud83d"; json.dumps emits ASCII only '
@@ -295,8 +302,8 @@ def rule_b(rep, cx):
     rep.check('R16.b', '%s::JSONCookie quote/unquote codec' % COOKIE, ok, 'quote() and unquote() use matching halves of one codec (%s / %s)' % (encs, decs) if ok else
               'quote() encodes with %s but unquote() decodes with %s: values whose encoding differs between the two alphabets are silently '
               'dropped (the whole cookie is discarded as unquotable)' % (encs, decs), ck, qf.node)
-    sers_q = [_receiver(qf, jc, c) for c in walk_body(qf.node) if isinstance(c, ast.Call) and call_tail(c) == 'dumps']
-    sers_u = [_receiver(uq, jc, c) for c in walk_body(uq.node) if isinstance(c, ast.Call) and call_tail(c) == 'loads']
+    sers_q = [_receiver(cx, qf, jc, c) for c in walk_body(qf.node) if isinstance(c, ast.Call) and call_tail(c) == 'dumps']
+    sers_u = [_receiver(cx, uq, jc, c) for c in walk_body(uq.node) if isinstance(c, ast.Call) and call_tail(c) == 'loads']
     sers = sers_q + sers_u
     ok = bool(sers_q) and bool(sers_u) and len(set(sers)) == 1
     rep.check('R16.b', '%s::JSONCookie quote/unquote serializer' % COOKIE, ok, 'dumps / loads come from the same serialization module' if ok else
@@ -398,7 +405,7 @@ def _text_class(cx, fl, fi, jc, e, at, depth=0):
         v = lf.value
         if isinstance(v, ast.Call) and isinstance(v.func, ast.Attribute) and v.func.attr in STR_TO_STR and depth < 6:
             c = _text_class(cx, fl, fi, jc, v.func.value, lf.stmt, depth + 1)
-        elif isinstance(v, ast.Call) and call_tail(v) == 'dumps' and _receiver(fi, jc, v) in JSON_MODULES:
+        elif isinstance(v, ast.Call) and call_tail(v) == 'dumps' and _receiver(cx, fi, jc, v) in JSON_MODULES:
             ea = _ensure_ascii(cx, fi, v)
             if ea is None:
                 raise AnalysisError('JSONCookie.quote: cannot decide the ensure_ascii argument of %s' % short(v, 60))
@@ -454,19 +461,42 @@ def _opaque_calls(cx, ci, fi):
         if not isinstance(c, ast.Call):
             continue
         f = c.func
-        if isinstance(f, ast.Attribute) and norm(f.value) in ('cls', 'self', ci.name) and f.attr in ci.methods:
+        if isinstance(f, ast.Attribute) and norm(f.value) in ('cls', 'self', ci.name) and _own_method(cx, ci, f.attr):
             out.append(norm(f))
         elif isinstance(f, ast.Name) and cx.repo.resolve(cx.ck, f.id)[0] == 'func' and cx.repo.resolve(cx.ck, f.id)[1] is cx.ck:
             out.append(f.id)
     return out
 
 
-def _receiver(fi, ci, call):
+def _own_method(cx, ci, name):
+    m = cx.repo.find_method(ci, name)
+    return m is not None and not m.mod.external
+
+
+def _receiver(cx, fi, ci, call):
     """The object a ``X.dumps`` / ``X.loads`` call is made on: a local naming it is followed, a class attribute read
-    through cls / self / the class name is replaced by its value (``cls.serialization_method`` -> ``json``)."""
+    through cls / self / the name of the class or of one of its bases is replaced by the value the attribute has for
+    class ``ci`` -- looked up along its MRO, so that a codec mixin listed before SecureCookie is seen the way Python sees
+    it (``cls.serialization_method`` -> ``json``); a name bound by ``import m as n`` is given as ``m``."""
     e = _follow(fi, call.func.value) if isinstance(call.func, ast.Attribute) else call.func
-    if isinstance(e, ast.Attribute) and norm(e.value) in ('cls', 'self', ci.name) and ci.class_attrs.get(e.attr) is not None:
-        return norm(ci.class_attrs[e.attr])
+    if isinstance(e, ast.Attribute):
+        start = None
+        if norm(e.value) in ('cls', 'self', 'type(self)', 'self.__class__'):
+            start = ci
+        elif isinstance(e.value, ast.Name):
+            start = next((c for c in cx.repo.mro(ci) if isinstance(c, ClassInfo) and c.name == e.value.id), None)
+        if start is not None:
+            owner, v = cx.repo.class_attr(start, e.attr)
+            if owner is not None and isinstance(v, ast.expr):
+                return _module_text(cx, owner.mod, v)
+    return _module_text(cx, fi.mod, e)
+
+
+def _module_text(cx, mod, e):
+    if isinstance(e, ast.Name):
+        kind, _, obj = cx.repo.resolve(mod, e.id)
+        if kind == 'module' and isinstance(obj, str):
+            return obj
     return norm(e)
 
 
@@ -515,9 +545,13 @@ def rule_c(rep, cx):
               'no mac.update over the received items', dep, un.node)
     jc = ck.cls('JSONCookie')
     for nm in ('hash_method', 'serialize', 'load_cookie', 'save_cookie'):
-        ok = nm not in jc.methods and nm not in jc.class_attrs
+        owner, _ = cx.repo.class_attr(jc, nm)       # along the MRO: a mixin listed before SecureCookie overrides as well
+        if owner is None:
+            raise AnalysisError('JSONCookie.%s: not found along the MRO of JSONCookie (dependency class not resolved)' % nm)
+        ok = owner.mod.external
         rep.check('R16.c', '%s::JSONCookie.%s' % (COOKIE, nm), ok, 'JSONCookie inherits %s from SecureCookie' % nm if ok else
-                  'JSONCookie overrides %s (the MAC / cookie plumbing is no longer the dependency\'s)' % nm, ck, jc.node)
+                  'JSONCookie overrides %s%s (the MAC / cookie plumbing is no longer the dependency\'s)'
+                  % (nm, ' through its base %s' % owner.name if owner is not None and owner is not jc else ''), ck, (owner or jc).node)
     sc = cx.sup_calls[0]
     ps = [p for p in ju.params() if p != 'cls']
     plain = not any(isinstance(a, ast.Starred) for a in sc.args) and not any(k.arg is None for k in sc.keywords) \
@@ -593,29 +627,42 @@ def rule_d(rep, cx):
     init = ck.func('SignedCookieMiddleware.__init__')
     mw = ck.cls('SignedCookieMiddleware')
     sk = [s for s in stmts_of(init.node) if isinstance(s, ast.Assign) and any(norm(t) == 'self.secret_key' for t in s.targets)]
+    kf = _KeyFlow(cx, mw, init)
     atoms = []
     for s in sk:
-        atoms += _atoms(init, s.value, set())
-    # every value self.secret_key may get is the constructor argument or a fresh random key (a direct os.urandom call or
-    # a no-argument method of the class that returns one)
-    sources = [(x, _random_calls(mw, x)) for k, x in atoms if k == 'call']
-    ok = bool(sk) and ('param', 'secret_key') in atoms and bool(sources) and all(r for _, r in sources) and \
-        all(k == 'call' or (k, x) == ('param', 'secret_key') for k, x in atoms)
+        atoms += kf.atoms(ck, init, s.value, None, PER_CALL, ())
+    # every value self.secret_key may get is the constructor argument or a random key (os.urandom, written in place or
+    # reached through methods / functions / lambdas / partials / class attributes / module-level names)
+    randoms = []
+    for a in atoms:
+        if a[0] == 'random' and not any(a[1] is b[1] and a[2] == b[2] for b in randoms):
+            randoms.append(a)
+    others = [a for a in atoms if a[0] != 'random' and a[:2] != ('param', 'secret_key')]
+    ok = bool(sk) and any(a[:2] == ('param', 'secret_key') for a in atoms) and bool(randoms) and not others
     rep.check('R16.d', fkey(init, 'self.secret_key'), ok, 'secret key is the constructor argument, else random' if ok else
-              'self.secret_key is not "secret_key or self._get_random()": %s' % (short(sk[0].value) if sk else 'missing'), ck, init.node)
-    rcalls = []
-    for _, r in sources:
-        rcalls += [x for x in (r or []) if not any(x[1] is y[1] for y in rcalls)]
-    if not rcalls and '_get_random' in mw.methods:
-        rcalls = _random_calls(mw, ast.Call(func=ast.Attribute(value=ast.Name(id='self', ctx=ast.Load()), attr='_get_random', ctx=ast.Load()),
-                                            args=[], keywords=[])) or [(mw.methods['_get_random'], None)]
-    for gr, rcall in rcalls:
-        nbytes = cx.fold(rcall.args[0]) if rcall is not None and len(rcall.args) == 1 and not rcall.keywords else None
+              'self.secret_key is not "the secret_key argument, else a random key": %s%s'
+              % (short(sk[0].value) if sk else 'missing', '; it may also be %s' % ', '.join(sorted(set(str(a[1]) for a in others))) if others else ''),
+              ck, init.node)
+    for _, rcall, _, rmod, (rfi, renv) in randoms:
+        gr = rmod.func_of_node(rmod.enclosing_function(rcall)) if rmod.enclosing_function(rcall) is not None else None
+        nbytes = kf.constant(rmod, rfi, rcall.args[0], renv) if len(rcall.args) == 1 and not rcall.keywords else None
         ok = isinstance(nbytes, int) and not isinstance(nbytes, bool) and nbytes >= 16
-        rep.check('R16.d', fkey(gr) if gr is not init else fkey(init, 'random key'), ok,
-                  'random key is >= 16 bytes of os.urandom' if ok else 'random key is not os.urandom(>=16)', ck, rcall or gr.node)
-    if not rcalls:
+        rep.check('R16.d', fkey(init, 'random key') if gr is None or gr is init else fkey(gr), ok,
+                  'random key is >= 16 bytes of os.urandom' if ok else 'random key is not os.urandom(>=16)', rmod, rcall)
+    if not randoms:
         rep.fail('R16.d', fkey(init, 'random key'), 'no os.urandom source for the default secret key', ck, init.node)
+    # R16.f: a key per middleware.  The random key is the *server's secret of this middleware*: it must be drawn by a call
+    # evaluated each time the constructor runs.  A default-argument expression, a class attribute, a module-level value or a
+    # memoised factory is evaluated once per process: every middleware built without a key then signs with the same key.
+    rep.rule('R16.f', 'the random default key is drawn per construction: not a default-argument expression, class attribute, '
+                      'module-level value or memoised factory')
+    for _, rcall, when, rmod, _ in randoms:
+        rep.check('R16.f', fkey(init, 'random key per construction: %s' % norm(rcall)), when == PER_CALL,
+                  '%s is evaluated each time a middleware is constructed' % short(rcall, 40) if when == PER_CALL else
+                  '%s is %s: it is evaluated once per process, so every SignedCookieMiddleware constructed without secret_key signs and '
+                  'verifies with the SAME key -- a cookie minted by one middleware (another application / stack, where the client may store '
+                  'what it likes) carries a valid signature for every other one and is presented with its attacker-chosen contents '
+                  'instead of as an empty cookie' % (short(rcall, 40), when), rmod, rcall)
     pv = [s for s in stmts_of(init.node) if isinstance(s, ast.Assign) and any(norm(t) == 'self.provides' for t in s.targets)]
     ok = len(pv) == 1 and _only_arg_name(init, _follow(init, pv[0].value)) and not assigned_value(init.node, 'arg_name')
     rep.check('R16.d', fkey(init, 'self.provides'), ok, 'provides is exactly (arg_name,)' if ok else 'provides is not (arg_name,)', ck, init.node)
@@ -658,51 +705,323 @@ def rule_d(rep, cx):
     rep.floor('R16.d', 9)
 
 
-def _atoms(fi, e, seen):
-    """The values an expression may evaluate to, as far as ``or`` / conditional expressions / locals go:
-    [('param', name) | ('call', call node) | ('expr', text)]."""
-    if isinstance(e, ast.BoolOp) and isinstance(e.op, ast.Or):
-        out = []
-        for v in e.values:
-            out += _atoms(fi, v, seen)
-        return out
-    if isinstance(e, ast.IfExp):
-        return _atoms(fi, e.body, seen) + _atoms(fi, e.orelse, seen)
-    if isinstance(e, ast.Name):
-        if e.id in seen:
-            return []
-        out = []
-        if e.id in fi.params():
-            out.append(('param', e.id))
-        defs = assigned_value(fi.node, e.id)
-        if not defs and not out:
-            return [('expr', e.id)]
-        for st, v, idx in defs:
-            if idx is not None or not isinstance(st, (ast.Assign, ast.AnnAssign)):
-                out.append(('expr', short(st, 40)))
-            else:
-                out += _atoms(fi, v, seen | {e.id})
-        return out
-    if isinstance(e, ast.Call):
-        return [('call', e)]
-    return [('expr', norm(e))]
-
-
 RANDOM_BYTES = ('os.urandom', 'secrets.token_bytes')
+PER_CALL = 'per call'
+MEMOISERS = ('lru_cache', 'cache', 'cached', 'memoize', 'memoized', 'memoise', 'cached_property', 'cachedproperty')
+PARTIALS = ('functools.partial', 'partial')
+SELF_TEXTS = ('self', 'cls', 'type(self)', 'self.__class__')
 
 
-def _random_calls(ci, call):
-    """[(function it is written in, the os.urandom(..) call)] a call stands for: the call itself, or -- for a
-    no-argument ``self.m()`` -- the value every return of method ``m`` gives.  None: not a random-bytes source."""
-    if norm(call.func) in RANDOM_BYTES:
-        return [(ci.methods['__init__'], call)]
-    f = call.func
-    if isinstance(f, ast.Attribute) and norm(f.value) == 'self' and f.attr in ci.methods and not call.args and not call.keywords:
-        m = ci.methods[f.attr]
-        rv = [_follow(m, r.value) if r.value is not None else None for r in returns_of(m)]
-        if rv and all(isinstance(v, ast.Call) and norm(v.func) in RANDOM_BYTES for v in rv):
-            return [(m, v) for v in rv]
+class _KeyFlow(object):
+    """Where the value the constructor stores as ``self.secret_key`` comes from, and *when* each source is evaluated.
+
+    ``atoms(mod, fi, e, env, when, seen)`` -> [('param', name, when, mod) | ('random', call, when, mod) | ('expr', text, when, mod)]
+    for the values expression ``e`` may have, as far as ``or`` / conditional expressions / locals / parameters and their
+    defaults / class attributes / module-level names / calls of functions, methods, lambdas and partials of the analysed
+    tree go.  ``fi`` is the function the expression is written in (None: class or module level), ``env`` the bindings of
+    that function's parameters ({name: (expr, mod, fi, env, when)}; None for the constructor itself, whose parameters are
+    the configuration), ``when`` is PER_CALL or the text saying why the expression is evaluated only once."""
+
+    def __init__(self, cx, mw, init):
+        self.cx, self.repo, self.mw, self.init = cx, cx.repo, mw, init
+
+    def atoms(self, mod, fi, e, env, when, seen):
+        if len(seen) > 16:
+            return [('expr', short(e, 40), when, mod)]
+        rec = lambda x: self.atoms(mod, fi, x, env, when, seen)
+        if isinstance(e, ast.BoolOp) and isinstance(e.op, ast.Or):
+            return [a for v in e.values for a in rec(v)]
+        if isinstance(e, ast.IfExp):
+            return rec(e.body) + rec(e.orelse)
+        if isinstance(e, ast.NamedExpr):
+            return rec(e.value)
+        if isinstance(e, ast.Name):
+            return self._name(mod, fi, e, env, when, seen)
+        if isinstance(e, ast.Attribute):
+            return self._attribute(mod, fi, e, env, when, seen)
+        if isinstance(e, ast.Call):
+            return self._call(mod, fi, e, env, when, seen)
+        return [('expr', short(e, 40), when, mod)]
+
+    def constant(self, mod, fi, e, env, depth=0):
+        """Folded value of an argument expression written in ``fi``: a parameter stands for the expression it is bound to
+        (or its default), a once-bound local for its value, anything else is folded at module level."""
+        if isinstance(e, ast.Name) and fi is None and env and e.id in env and depth < 6:
+            x, xmod, xfi, xenv, _ = env[e.id]
+            return self.constant(xmod, xfi, x, xenv, depth + 1)
+        if isinstance(e, ast.Name) and fi is not None and depth < 6:
+            if e.id in _all_params(fi.node) and not assigned_value(fi.node, e.id):
+                if env is None:
+                    return _NOFOLD
+                if e.id in env:
+                    x, xmod, xfi, xenv, _ = env[e.id]
+                    return self.constant(xmod, xfi, x, xenv, depth + 1)
+                return _NOFOLD
+            defs = _value_defs(fi, e.id)
+            if defs and len(defs) == 1:
+                return self.constant(mod, fi, defs[0][1], env, depth + 1)
+            if defs or defs is None:
+                return _NOFOLD
+        return self.repo.try_fold(e, mod, _NOFOLD)
+
+    # -- names
+    def _name(self, mod, fi, e, env, when, seen):
+        key = (fi.key if fi is not None else mod.name, e.id, id(env))
+        if key in seen:
+            return []
+        seen = seen + (key,)
+        if fi is None and env and e.id in env:        # a parameter of a lambda
+            x, xmod, xfi, xenv, xwhen = env[e.id]
+            return self.atoms(xmod, xfi, x, xenv, xwhen, seen)
+        if fi is not None:
+            if e.id in _globals_of(fi):
+                # a module-level variable the function (re)binds: one value for the process, whoever computed it
+                once = 'kept in the module-level variable %s' % e.id
+                out = [a for _, v, idx in assigned_value(fi.node, e.id) if idx is None and isinstance(v, ast.expr)
+                       for a in self.atoms(mod, fi, v, env, once, seen)]
+                return out + self._module_name(mod, e, once, seen)
+            ps = _all_params(fi.node)
+            defs = assigned_value(fi.node, e.id)
+            out = []
+            if e.id in ps:
+                if env is None:
+                    out.append(('param', e.id, when, mod))
+                    d = _default_of(fi.node, e.id)
+                    v = self.repo.try_fold(d, mod, _NOFOLD) if d is not None else None
+                    if d is not None and (v is _NOFOLD or v):
+                        # a default that is not None / '' / b'': what the parameter is when no key is configured
+                        out += self.atoms(mod, None, d, None, _once_default(e.id, fi), seen)
+                elif e.id in env:
+                    x, xmod, xfi, xenv, xwhen = env[e.id]
+                    out += self.atoms(xmod, xfi, x, xenv, xwhen, seen)
+                else:
+                    out.append(('expr', e.id, when, mod))
+            for st, v, idx in defs:
+                if idx is not None or not isinstance(st, (ast.Assign, ast.AnnAssign)):
+                    out.append(('expr', short(st, 40), when, mod))
+                else:
+                    out += self.atoms(mod, fi, v, env, when, seen)
+            if out or e.id in ps or defs:
+                return out
+        return self._module_name(mod, e, when, seen)
+
+    def _module_name(self, mod, e, when, seen):
+        kind, m, obj = self.repo.resolve(mod, e.id)
+        if kind == 'value' and m is not None and obj:
+            once = when if when != PER_CALL else 'the module-level value %s (evaluated once, when the module is imported)' % e.id
+            out = []
+            for v in obj:
+                out += self.atoms(m, None, v, None, once, seen) if isinstance(v, ast.expr) else [('expr', e.id, once, m)]
+            return out
+        return [('expr', e.id, when, mod)]
+
+    # -- attributes of the instance / the class
+    def _class_of(self, mod, fi, recv):
+        if norm(recv) in SELF_TEXTS:
+            return fi.cls if fi is not None and fi.cls is not None else None
+        if isinstance(recv, ast.Name):
+            r = self.repo.resolve_class(mod, recv)
+            return r if isinstance(r, ClassInfo) else None
+        return None
+
+    def _attribute(self, mod, fi, e, env, when, seen):
+        ci = self._class_of(mod, fi, e.value)
+        if ci is None:
+            return [('expr', norm(e), when, mod)]
+        key = (ci.key, e.attr)
+        if key in seen:
+            return []
+        seen = seen + (key,)
+        out = []
+        classes = [c for c in self.repo.mro(ci) if isinstance(c, ClassInfo) and not c.mod.external]
+        for c in classes:
+            for m in c.methods.values():
+                for st in stmts_of(m.node):
+                    if not isinstance(st, (ast.Assign, ast.AnnAssign)) or st.value is None:
+                        continue
+                    for t in (st.targets if isinstance(st, ast.Assign) else [st.target]):
+                        if not (isinstance(t, ast.Attribute) and t.attr == e.attr):
+                            continue
+                        rt = norm(t.value)
+                        if rt == 'self' and 'classmethod' not in [norm(d) for d in m.node.decorator_list]:
+                            if norm(e.value) == 'self' and m is fi:
+                                out += self.atoms(mod, fi, st.value, env, when, seen)      # bound by this constructor run
+                            else:
+                                out.append(('expr', '%s bound in %s()' % (norm(t), m.name), when, m.mod))
+                        elif rt in SELF_TEXTS or rt in [x.name for x in classes]:
+                            once = when if when != PER_CALL else \
+                                'kept in the class attribute %s.%s (assigned in %s(); one value for every instance)' % (c.name, e.attr, m.name)
+                            out += self.atoms(m.mod, m, st.value, env if m is fi else {}, once, seen)
+        owner, v = self.repo.class_attr(ci, e.attr)
+        if owner is not None and isinstance(v, ast.expr) and not owner.mod.external:
+            once = when if when != PER_CALL else \
+                'the value of the class attribute %s.%s (evaluated once, when the class is defined; one value for every instance)' % (owner.name, e.attr)
+            out += self.atoms(owner.mod, None, v, None, once, seen)
+        return out or [('expr', norm(e), when, mod)]
+
+    # -- calls
+    def _is_random(self, mod, f):
+        if norm(f) in RANDOM_BYTES:
+            return True
+        if isinstance(f, ast.Name):
+            kind, m, obj = self.repo.resolve(mod, f.id)
+            if kind == 'external' and obj in RANDOM_BYTES:
+                return True
+            if kind == 'value' and obj and len(obj) == 1 and isinstance(obj[0], ast.Attribute):
+                return self._is_random(m, obj[0])
+        if isinstance(f, ast.Attribute) and isinstance(f.value, ast.Name):
+            kind, m, obj = self.repo.resolve(mod, f.value.id)
+            if kind == 'module' and isinstance(obj, str) and '%s.%s' % (obj, f.attr) in RANDOM_BYTES:
+                return True
+        return False
+
+    def _call(self, mod, fi, e, env, when, seen):
+        f = e.func
+        if self._is_random(mod, f):
+            return [('random', e, when, mod, (fi, env))]
+        if any(isinstance(a, ast.Starred) for a in e.args) or any(k.arg is None for k in e.keywords):
+            return [('expr', short(e, 40), when, mod)]
+        tgt = self._callable(mod, fi, f, env, 0)
+        if tgt is None:
+            return [('expr', short(e, 40), when, mod)]
+        kind, obj, omod, skip_first, per_instance = tgt
+        if kind == 'partial':
+            # functools.partial(os.urandom, 20): the partial object is built once, the random call runs when IT is called
+            synth = ast.copy_location(ast.Call(func=obj.args[0], args=list(obj.args[1:]) + list(e.args),
+                                               keywords=list(obj.keywords) + list(e.keywords)), obj)
+            for n in ast.walk(synth):
+                if not hasattr(n, 'lineno'):
+                    ast.copy_location(n, obj)
+            omod.parents.setdefault(synth, omod.parents.get(obj))
+            return [('random', synth, when, omod, (None, None))]
+        if kind == 'lambda':
+            node, cfi, key, name = obj, None, 'lambda@%s:%s' % (omod.name, obj.lineno), 'the lambda'
+            rets = [obj.body]
+        else:
+            node, cfi, key, name = obj.node, obj, obj.key, obj.name + '()'
+            rets = [r.value for r in returns_of(obj)]
+            memo = [d for d in obj.node.decorator_list if _dec_name(d) in MEMOISERS]
+            odd = [d for d in obj.node.decorator_list if _dec_name(d) not in MEMOISERS + ('staticmethod', 'classmethod')]
+            if odd:
+                raise AnalysisError('SignedCookieMiddleware.__init__: the key comes from %s, whose decorator %s is not followed'
+                                    % (name, norm(odd[0])))
+            if memo and not per_instance and when == PER_CALL:
+                if e.args or e.keywords:
+                    raise AnalysisError('SignedCookieMiddleware.__init__: the key comes from the memoised %s called with arguments: '
+                                        'how many distinct keys there are is not decided' % name)
+                when = 'computed inside %s, which is memoised (@%s): its body runs once, every later call returns the first key' % (name, norm(memo[0]))
+        if key in [k for k in seen if isinstance(k, str)]:
+            return []
+        seen = seen + (key,)
+        cenv = _bind_call(node, e, skip_first, (mod, fi, env, when), omod, name)
+        if cenv is None:
+            return [('expr', short(e, 40), when, mod)]
+        out = []
+        for r in rets:
+            out += self.atoms(omod, cfi, r, cenv, when, seen) if r is not None else [('expr', 'None', when, omod)]
+        return out or [('expr', '%s returns nothing' % name, when, omod)]
+
+    def _callable(self, mod, fi, f, env, depth):
+        """('func', FuncInfo, mod, skip first parameter, keyed by the instance) | ('lambda', Lambda, mod, False, False) |
+        ('partial', the partial(..) call, mod, False, False) for the callable expression ``f`` denotes; None: not followed."""
+        if depth > 6:
+            return None
+        if isinstance(f, ast.Lambda):
+            return ('lambda', f, mod, False, False)
+        if isinstance(f, ast.Call) and norm(f.func) in PARTIALS and f.args and self._is_random(mod, f.args[0]) \
+                and not any(isinstance(a, ast.Starred) for a in f.args) and not any(k.arg is None for k in f.keywords):
+            return ('partial', f, mod, False, False)
+        if isinstance(f, ast.Attribute):
+            ci = self._class_of(mod, fi, f.value)
+            m = self.repo.find_method(ci, f.attr) if ci is not None else None
+            if m is None or m.mod.external:
+                return None
+            decs = [norm(d) for d in m.node.decorator_list]
+            bound = norm(f.value) in SELF_TEXTS or 'classmethod' in decs
+            return ('func', m, m.mod, bound and 'staticmethod' not in decs, norm(f.value) == 'self' and 'staticmethod' not in decs and 'classmethod' not in decs)
+        if not isinstance(f, ast.Name):
+            return None
+        if fi is not None and f.id not in _globals_of(fi):
+            if f.id in _all_params(fi.node):
+                if assigned_value(fi.node, f.id):
+                    return None
+                if env is None:
+                    d = _default_of(fi.node, f.id)        # the callable used when the configuration gives none
+                    return self._callable(mod, None, d, None, depth + 1) if d is not None else None
+                if f.id in env:
+                    x, xmod, xfi, xenv, _ = env[f.id]
+                    return self._callable(xmod, xfi, x, xenv, depth + 1)
+                return None
+            defs = assigned_value(fi.node, f.id)
+            if defs:
+                if len(defs) == 1 and defs[0][2] is None and isinstance(defs[0][0], (ast.Assign, ast.AnnAssign)):
+                    return self._callable(mod, fi, defs[0][1], env, depth + 1)
+                return None
+        kind, m, obj = self.repo.resolve(mod, f.id)
+        if kind == 'func' and m is not None and not m.external:
+            return ('func', obj, m, False, False)
+        if kind == 'value' and m is not None and obj and len(obj) == 1 and isinstance(obj[0], ast.expr):
+            return self._callable(m, None, obj[0], None, depth + 1)
+        return None
+
+
+def _globals_of(fi):
+    return set(n for st in stmts_of(fi.node) if isinstance(st, ast.Global) for n in st.names)
+
+
+def _all_params(fnode):
+    a = fnode.args
+    return [x.arg for x in a.posonlyargs + a.args + a.kwonlyargs] + [x.arg for x in (a.vararg, a.kwarg) if x is not None]
+
+
+def _default_of(fnode, name):
+    a = fnode.args
+    pos = a.posonlyargs + a.args
+    for p_, d_ in list(zip(pos[len(pos) - len(a.defaults):], a.defaults)) + list(zip(a.kwonlyargs, a.kw_defaults)):
+        if p_.arg == name:
+            return d_
     return None
+
+
+def _once_default(pname, fi_or_name):
+    name = fi_or_name if isinstance(fi_or_name, str) else fi_or_name.name + '()'
+    return 'the default-argument expression of parameter %s of %s (evaluated once, when the function is defined)' % (pname, name)
+
+
+def _dec_name(d):
+    if isinstance(d, ast.Call):
+        d = d.func
+    return d.attr if isinstance(d, ast.Attribute) else d.id if isinstance(d, ast.Name) else norm(d)
+
+
+def _bind_call(fnode, call, skip_first, caller, omod, name):
+    """{parameter: (expr, mod, fi, env, when)} for a call of the function / lambda ``fnode``: arguments are expressions of
+    the caller (evaluated when the call is), parameters left out get their default expression, which belongs to the
+    module level of the callee and was evaluated once.  None: the call does not bind the plain way."""
+    a = fnode.args
+    pos = [x.arg for x in a.posonlyargs + a.args]
+    if skip_first:
+        if not pos:
+            return None
+        pos = pos[1:]
+    names = pos + [x.arg for x in a.kwonlyargs]
+    if len(call.args) > len(pos):
+        return None
+    mod, fi, env, when = caller
+    cenv = {}
+    for p_, x in zip(pos, call.args):
+        cenv[p_] = (x, mod, fi, env, when)
+    for k in call.keywords:
+        if k.arg not in names or k.arg in cenv:
+            return None
+        cenv[k.arg] = (k.value, mod, fi, env, when)
+    for p_ in names:
+        if p_ not in cenv:
+            d = _default_of(fnode, p_)
+            if d is None:
+                return None
+            cenv[p_] = (d, omod, None, None, when if when != PER_CALL else _once_default(p_, name))
+    return cenv
 
 
 def _only_arg_name(fi, e):
